@@ -13,6 +13,9 @@ def check(rep, tier, rng):
     for ctag, items in specgen.catalog():
         cases.append({"text": specgen.render(items), "items": items, "kind": "catalogue", "mode": "plain"})
         cases.append({"text": specgen.render(rng.shuffle(items), specgen.Layout(rng, "light")), "items": items, "kind": "catalogue", "mode": "light"})
+    for ctag, items in specgen.names_catalog():
+        cases.append({"text": specgen.render(items), "items": items, "kind": "names", "mode": "plain"})
+        cases.append({"text": specgen.render(rng.shuffle(items), specgen.Layout(rng, "light")), "items": items, "kind": "names", "mode": "light"})
     res = t3.run_texts([c["text"] for c in cases])
     tie_breaks, nviol, distinct = [], 0, set()
     kinds = {}
